@@ -91,6 +91,12 @@ def _run(ctx, replay):
         e = dict(env, LC_ALL='C')
         r = subprocess.run([exe, 'run', path, str(sd)], capture_output=True, text=True, env=e, errors='replace')
         s = subprocess.run([exe, 'serial', path, str(sd)], capture_output=True, text=True, env=e, errors='replace')
+        if ctx.tier == 'thorough' and r.returncode == 0 and r.stdout == s.stdout:
+            # the same scripts under two more schedules (other yield/spin pattern)
+            for extra in (1, 2):
+                r2 = subprocess.run([exe, 'run', path, str(sd + 7919 * extra)], capture_output=True, text=True, env=e, errors='replace')
+                stats['schedules'] = stats.get('schedules', 0) + 1
+                if r2.returncode != 0 or r2.stdout != s.stdout: r = r2; break
         stats['rounds'] += 1; stats['calls'] += len(lines)
         nt = 1 + max(int(l.split(' ', 1)[0]) for l in lines)
         stats['threads'].append(nt)
@@ -119,7 +125,7 @@ def _run(ctx, replay):
             if lines: one_round(lines, sd + k, 'replay')
             if viol: break
     else:
-        plan = [(8, 220), (16, 160), (12, 200), (16, 120), (8, 300), (10, 200), (16, 200), (14, 150)] if ctx.tier == 'quick' else [(8, 400), (16, 300), (12, 350), (10, 300), (16, 500)] * 8
+        plan = [(8, 220), (16, 160), (12, 200), (16, 120), (8, 300), (10, 200), (16, 200), (14, 150)] if ctx.tier == 'quick' else [(8, 600), (16, 450), (12, 500), (10, 450), (16, 700)] * 40
         for i, (nt, nops) in enumerate(plan):
             one_round(make_script(ctx.rng, meta, nt, nops), ctx.rng.getrandbits(31), 'round %d (%d threads)' % (i, nt))
         if explain:       # the footprint / MT-safety theorem is broken: concentrate 16 threads on the offending entries
